@@ -217,6 +217,7 @@ Definition ke_record_of (v : value) : option ke_record :=
   | VL [VZ 3; VZ x] => Some (RWarning x)
   | VL [VZ 2; VZ x] => Some (RError x)
   | VL [VZ 4; VL l] => match getZs l with Some zs => Some (RAlgorithm zs) | None => None end
+  | VL [VZ 8; VZ t; VB b] => Some (RUnknown t b)
   | _ => None
   end.
 
@@ -253,7 +254,7 @@ Fixpoint ke_calls (calls : nat) (s : list Z) (d : ke_data) : list value * list Z
   | S c => let '(d', e, s') := read_data_flat s d in
            let o := VL [ke_data_val d'; VZ e] in
            if e =? 0 then let '(os, s'', ok) := ke_calls c s' d' in (o :: os, s'', ok)
-           else ([o], [], false)
+           else ([o], s', false)
   end.
 
 Definition ke_expected (calls : Z) (s : list Z) (d : ke_data) : value :=
@@ -401,12 +402,23 @@ Fixpoint nts_dec_hist (p : nts_pkt) (bs : list value) : option (list value) :=
   | _ => None
   end.
 
+Fixpoint forallb2_eq (a b : list (list Z)) : bool :=
+  match a, b with
+  | [], [] => true
+  | x :: a', y :: b' => zs_eqb x y && forallb2_eq a' b'
+  | _, _ => false
+  end.
+
+Definition cookie_vals (l : list ext_val) : value := VL (map ext_val_val l).
+Definition ext_value (e : ext_val) : list Z := snd e.
+
 Definition glue_nts (k : string) (a o : list value) : option verdict :=
   if is k "nts.enc" then
     match a, o with
-    | [VB hdr; VB tail; VB id; VL cs; VL ps; VB _; VB pt; VB tape], [VZ pan; VB enc; VZ derr; dv; VZ authok] =>
-        match getBs cs, getBs ps with
-        | Some cookies, Some phs =>
+    | [VB hdr; VB tail; VB id; VL cs; VL ps; VB _; VB pt; VB tape; VL bodiesv; VZ structured],
+      [VZ pan; VB enc; VZ derr; dv; VZ authok; VL afterv] =>
+        match getBs cs, getBs ps, getBs bodiesv with
+        | Some cookies, Some phs, Some bodies =>
             let p := {| ni_id := id; ni_cookies := cookies; ni_placeholders := phs |} in
             let nonce := firstn 16 tape in
             (* the ciphertext is the AEAD's business: it is read off the observed encoding at the
@@ -415,23 +427,122 @@ Definition glue_nts (k : string) (a o : list value) : option verdict :=
             let ctlen := (length pt + 16)%nat in
             let ct := zpad ctlen (skipn (authpos + 24) enc) in
             let wire_len := (authpos + 8 + 16 + pad4len ctlen)%nat in
+            let fits := (wire_len <=? 1024)%nat in
             let expected :=
               match nts_encode hdr tail p nonce ct with
               | Ok e => let d := nts_decode nts_pkt_empty e in
-                        [VZ 0; VB e; VZ (snd d); nts_pkt_val (fst d); VZ authok]
-              | _ => [VZ 1; VB []; VZ 0; VL []; VZ 0]
+                        (* the receiver opens the authenticator (the AEAD returns the plaintext) and
+                           walks the decrypted fields; a packet cut at the size limit does not open *)
+                        let w := nts_auth_walk (length pt) pt 0 (np_cookies (fst d)) in
+                        if fits then
+                          [VZ 0; VB e; VZ (snd d); nts_pkt_val (fst d);
+                           vbool ((snd d =? 0) && (snd w =? 0));
+                           if snd d =? 0 then cookie_vals (fst w) else VL []]
+                        else [VZ 0; VB e; VZ (snd d); nts_pkt_val (fst d); VZ authok; VL afterv]
+              | _ => [VZ 1; VB []; VZ 0; VL []; VZ 0; VL []]
               end in
             (* the property speaks about packets that have a wire form: identifier of at
                least 32 bytes, everything within the maximum packet length *)
             let oracle :=
-              if (32 <=? length id)%nat && (wire_len <=? 1024)%nat then
-                negb (zb pan) && zb authok &&
+              if (32 <=? length id)%nat && fits then
+                negb (zb pan) &&
                 match nts_pkt_of dv with
                 | Some d => C14_nts_ok hdr p nonce ct enc derr d
-                | None => false end
+                | None => false end &&
+                (* cookie fields inside the encrypted part come back as cookies, after the clear ones *)
+                (if zb structured then
+                   zb authok && match ext_vals_of afterv with
+                                | Some after => C14_resp_cookies_ok (cookies ++ bodies)%list after
+                                | None => false end
+                 else true)
               else true in
             Some (functional expected o oracle)
-        | _, _ => None end
+        | _, _, _ => None end
+    | _, _ => None end
+  else if is k "nts.resp" then
+    match a, o with
+    | [VB hdr; VB tail; VB uid; VL cs; VB _; VB tape], [VZ pan; VB enc; VZ derr; dv; VZ aerr; VL afterv; VL storedv] =>
+        match getBs cs with
+        | Some cookies =>
+            let panic_row := [VZ 1; VB []; VZ 0; VL []; VZ 0; VL []; VL []] in
+            let nonce := firstn 16 tape in
+            let expected :=
+              match nts_response_plain cookies (length uid) with
+              | Ok plain =>
+                  let p := {| ni_id := uid; ni_cookies := []; ni_placeholders := [] |} in
+                  let authpos := (48 + field_len uid)%nat in
+                  let ctlen := (length plain + 16)%nat in
+                  let ct := zpad ctlen (skipn (authpos + 24) enc) in
+                  let fits := (authpos + 8 + 16 + pad4len ctlen <=? 1024)%nat in
+                  match nts_encode hdr tail p nonce ct with
+                  | Ok e =>
+                      let d := nts_decode nts_pkt_empty e in
+                      if fits then
+                        let idok := zs_eqb (ext_value (np_uid (fst d))) uid in
+                        let w := nts_auth_walk (length plain) plain 0 (np_cookies (fst d)) in
+                        let ae := if negb (snd d =? 0) then 9 else if negb idok then 1
+                                  else if negb (snd w =? 0) then 2 else 0 in
+                        let after := if snd d =? 0 then (if idok then fst w else np_cookies (fst d)) else [] in
+                        let stored := if ae =? 0 then filter (fun c => (length c <=? 896)%nat) (map ext_value after) else [] in
+                        [VZ 0; VB e; VZ (snd d); nts_pkt_val (fst d); VZ ae; cookie_vals after; VL (map VB stored)]
+                      else [VZ 0; VB e; VZ (snd d); nts_pkt_val (fst d); VZ aerr; VL afterv; VL storedv]
+                  | _ => panic_row
+                  end
+              | _ => panic_row
+              end in
+            (* what a server issues: >= 1 cookies of one length (a multiple of 4, at least 24 bytes),
+               answering a request id of >= 32 bytes (a multiple of 4): the first min(n, what fits)
+               cookies come back as cookies and are stored *)
+            let oracle :=
+              match cookies with
+              | c0 :: _ =>
+                  let l := length c0 in
+                  let maxfit := ((1024 - 48 - (4 + length uid) - 40) / (4 + l))%nat in
+                  if (32 <=? length uid)%nat && (length uid mod 4 =? 0)%nat && (l mod 4 =? 0)%nat && (24 <=? l)%nat
+                     && (1 <=? maxfit)%nat && forallb (fun c => (length c =? l)%nat) cookies then
+                    let sent := firstn (Nat.min (length cookies) maxfit) cookies in
+                    negb (zb pan) && (derr =? 0) && (aerr =? 0) &&
+                    match ext_vals_of afterv, getBs storedv with
+                    | Some after, Some stored =>
+                        C14_resp_cookies_ok sent after &&
+                        (if (l <=? 896)%nat then (length stored =? length sent)%nat && forallb2_eq stored sent else true)
+                    | _, _ => false end
+                  else true
+              | [] => true
+              end in
+            Some (functional expected o oracle)
+        | None => None end
+    | _, _ => None end
+  else if is k "nts.pos" then
+    match a, o with
+    | [VB prefix; VB _; VB pt; VB nonce; VL bodiesv; VZ wf; VZ structured], [VB b; VZ derr; dv; VZ aerr; VL afterv] =>
+        match getBs bodiesv with
+        | Some bodies =>
+            let ctlen := (length pt + 16)%nat in
+            let ct := zpad ctlen (skipn (length prefix + 24) b) in
+            let e := (prefix ++ auth_field nonce ct)%list in
+            let d := nts_decode nts_pkt_empty e in
+            let '(_, _, n', c') := np_auth (fst d) in
+            (* accepted iff the authenticator was found where it is: the associated data are
+               exactly the bytes before it *)
+            let found := match nts_auth_pos (length e) e 48 with
+                         | Some q => (q =? length prefix)%nat && zs_eqb n' nonce && zs_eqb c' ct
+                         | None => false end in
+            let w := nts_auth_walk (length pt) pt 0 (np_cookies (fst d)) in
+            let ae := if negb (snd d =? 0) then 9 else if negb found then 4 else if negb (snd w =? 0) then 2 else 0 in
+            let after := if snd d =? 0 then (if found then fst w else np_cookies (fst d)) else [] in
+            let oracle :=
+              if zb wf then
+                (derr =? 0) && (if zb structured then aerr =? 0 else (aerr =? 0) || (aerr =? 2)) &&
+                match nts_pkt_of dv, ext_vals_of afterv with
+                | Some dd, Some aft =>
+                    let nclear := length (np_cookies dd) in
+                    list_eqb value_eqb (map ext_val_val (firstn nclear aft)) (map ext_val_val (np_cookies dd)) &&
+                    (if zb structured then C14_resp_cookies_ok bodies (skipn nclear aft) else true)
+                | _, _ => false end
+              else true in
+            Some (functional [VB e; VZ (snd d); nts_pkt_val (fst d); VZ ae; cookie_vals after] o oracle)
+        | None => None end
     | _, _ => None end
   else if is k "nts.dec" then
     match a with
